@@ -32,17 +32,120 @@ CONCRETE = {"unit": "()", "num": "u32", "rec": "R", "impl_num": "u32", "impl_rec
 # ------------------------------------------------------------------------------------------------
 # parameter groups
 
-def mk_bind(idx, ty, owned, rtype, named=True, pat="PIdent", access="val", name=None):
+def path_spell(text):
+    """the spelling of a path type as the Coq term `TyPath refs leading_colon segs generics` (refs given separately)"""
+    t = text.strip()
+    lead = t.startswith("::")
+    if lead:
+        t = t[2:]
+    gens = "<" in t
+    segs = [x.split("<")[0] for x in t.split("<")[0].split("::")] if not gens else [x for x in t[:t.index("<")].split("::")]
+    return lead, segs, gens
+
+
+def spell_of(sig_type):
+    """('path', refs, lead, segs, generics) | ('other', refs) for a parameter type as written in the signature"""
+    t = sig_type.strip()
+    refs = 0
+    while t.startswith("&"):
+        refs += 1
+        t = t[1:].strip()
+        if t.startswith("'a"):
+            t = t[2:].strip()
+        if t.startswith("mut "):
+            t = t[4:].strip()
+    if t.startswith("impl ") or t.startswith("(") or t.startswith("["):
+        return ("other", refs)
+    lead, segs, gens = path_spell(t)
+    return ("path", refs, lead, segs, gens)
+
+
+def mk_bind(idx, ty, owned, rtype, named=True, pat="PIdent", access="val", name=None, spell=None, vtext=None):
+    """rtype: what the attribute's documentation says the parameter is recorded as (the oracle's expectation, written by hand);
+    spell: the parameter's type as written (the model derives its own RecordType from it, Attr.Model.rtype_of)."""
     return {"i": idx, "name": name or ("p%d" % idx), "ty": ty, "owned": owned, "rtype": rtype, "named": named, "pat": pat,
-            "access": access}  # access: how the body holds it: val | mutval | ref | mutref | generic | genref | selfval | selfref | selfmut | copy
+            "access": access, "spell": spell, "vtext": vtext}  # access: how the body holds it: val | mutval | ref | mutref | generic | genref | selfval | selfref | selfmut | copy
 
 
 GROUP_KINDS = ["val", "mutval", "ref", "mutref", "generic", "genref", "impl", "u32", "bool", "str", "refu32", "tuple", "tuple_mixed",
                "struct", "tstruct", "reftuple", "wild", "structn"]
 
 
+# ---- every TYPES_FOR_VALUE entry, spelled bare / qualified / with a leading `::` / behind `&` and `&mut` / with generics
+UNSIGNED = ["u8", "u16", "u32", "u64", "usize"]
+SIGNED = ["i8", "i16", "i32", "i64", "isize"]
+VTYPES = {}      # name -> (module path, vtext, model ty, expression of type T from a[i])
+for _t in UNSIGNED:
+    VTYPES[_t] = ("primitive", "u64", "vnum", "a[%d] as " + _t)
+for _t in SIGNED:
+    VTYPES[_t] = ("primitive", "i64", "vnum", "a[%d] as " + _t)
+VTYPES["u128"] = ("primitive", "u128", "vnum", "a[%d] as u128")
+VTYPES["i128"] = ("primitive", "i128", "vnum", "a[%d] as i128")
+VTYPES["f32"] = ("primitive", "f64", "vnum", "a[%d] as f32")
+VTYPES["f64"] = ("primitive", "f64", "vnum", "a[%d] as f64")
+VTYPES["bool"] = ("primitive", "bool", "vbool", "a[%d] != 0")
+VTYPES["str"] = ("primitive", "str", "vstr", None)
+VTYPES["String"] = ("string", "str", "vstr", "STRS[(a[%d] %% 4) as usize].to_string()")
+for _t in UNSIGNED + ["u128"]:
+    _nz = "NonZero" + _t.capitalize()
+    VTYPES[_nz] = ("num", "u128" if _t == "u128" else "u64", "vnum", "std::num::" + _nz + "::new((a[%d] as " + _t + ").max(1)).unwrap()")
+for _t in SIGNED + ["i128"]:
+    _nz = "NonZero" + _t.capitalize()
+    VTYPES[_nz] = ("num", "i128" if _t == "i128" else "i64", "vnum", "std::num::" + _nz + "::new((a[%d] as " + _t + ").max(1)).unwrap()")
+VTYPES["Wrapping"] = ("num", "u64", "vnum", "std::num::Wrapping(a[%d] as u32)")
+VFORMS = ["bare", "q", "cq", "lq", "lcq", "rq", "mq", "rbare"]
+
+
+def vq_type(tname, form):
+    """the type text of TYPES_FOR_VALUE entry `tname` in spelling `form` (without the reference)"""
+    mod = VTYPES[tname][0]
+    last = tname + ("<u32>" if tname == "Wrapping" else "")
+    if form in ("bare", "rbare"):
+        return last
+    root = {"q": "std", "rq": "std", "mq": "std", "cq": "core", "lq": "::std", "lcq": "::core"}[form]
+    if mod == "string" and root.endswith("core"):
+        root = root.replace("core", "std")     # String lives in alloc / std only
+    return "%s::%s::%s" % (root, mod, last)
+
+
+def mk_vq_group(tname, form, idx):
+    mod, vtext, mty, expr = VTYPES[tname]
+    if tname == "str" and form not in ("rq", "mq", "rbare"):
+        form = "rq"                              # `str` only exists behind a reference
+    ty = vq_type(tname, form)
+    ref = {"rq": "&'a ", "mq": "&'a mut ", "rbare": "&'a "}.get(form, "")
+    sig_ty = ref + ty
+    name = "p%d" % idx
+    if tname == "str":
+        setup, arg = [], "STRS[(a[%d] %% 4) as usize]" % idx
+        if form == "mq":
+            setup = ["let v%d: &'static mut str = Box::leak(STRS[(a[%d] %% 4) as usize].to_string().into_boxed_str());" % (idx, idx)]
+            arg = "v%d" % idx
+    elif ref:
+        setup = ["let v%d: &'static %s%s = Box::leak(Box::new(%s));" % (idx, "mut " if form == "mq" else "", ty, expr % idx)]
+        arg = "v%d" % idx
+    else:
+        setup, arg = [], expr % idx
+    b = mk_bind(idx, mty, False, "value", access="opaque", spell=spell_of(sig_ty), vtext=vtext)
+    b["vq"] = (tname, form)
+    return {"sig": "%s: %s" % (name, sig_ty), "setup": setup, "arg": arg, "lt": True, "kind": "vq:%s:%s" % (tname, form)}, [b]
+
+
 def mk_group(kind, idx, gi):
     """returns (group dict, bindings)"""
+    if kind.startswith("vq:"):
+        _, tname, form = kind.split(":")
+        return mk_vq_group(tname, form, idx)
+    g, b = mk_group0(kind, idx, gi)
+    # the type as written, per binding (destructured bindings share their group's type)
+    ty = g["sig"].rsplit(": ", 1)[1] if ": " in g["sig"] else "R"
+    for x in b:
+        if x.get("spell") is None:
+            x["spell"] = spell_of(ty)
+    return g, b
+
+
+def mk_group0(kind, idx, gi):
     n = lambda k=0: "p%d" % (idx + k)
     if kind == "val":
         b = [mk_bind(idx, "rec", True, "debug")]
@@ -112,11 +215,12 @@ def mk_group(kind, idx, gi):
 
 
 def mk_recv(kind):
+    sp = ("path", {"val": 0, "ref": 1, "mut": 1}[kind], False, ["Self"], False)
     if kind == "val":
-        return mk_bind(0, "rec", True, "debug", pat="PSelf", access="selfval", name="self")
+        return mk_bind(0, "rec", True, "debug", pat="PSelf", access="selfval", name="self", spell=sp)
     if kind == "ref":
-        return mk_bind(0, "rec", False, "debug", pat="PSelf", access="selfref", name="self")
-    return mk_bind(0, "rec", False, "debug", pat="PSelf", access="selfmut", name="self")
+        return mk_bind(0, "rec", False, "debug", pat="PSelf", access="selfref", name="self", spell=sp)
+    return mk_bind(0, "rec", False, "debug", pat="PSelf", access="selfmut", name="self", spell=sp)
 
 
 # ------------------------------------------------------------------------------------------------
@@ -141,6 +245,10 @@ class Gen:
                        "refu32": 1, "tuple": 2, "tuple_mixed": 2, "struct": 2, "tstruct": 1, "reftuple": 1, "wild": 1, "structn": 1}
             pool = [k for k, w in weights.items() for _ in range(w)]
             kinds = [rng.choice(pool) for _ in range(n_groups)]
+            # sometimes a TYPES_FOR_VALUE entry in one of its spellings
+            for gi_ in range(len(kinds)):
+                if rng.random() < 0.12:
+                    kinds[gi_] = "vq:%s:%s" % (rng.choice(sorted(VTYPES)), rng.choice(VFORMS))
         gi = 0
         for k in kinds:
             if len(binds) >= 7:
@@ -341,7 +449,7 @@ class Gen:
                     nm = ("param", cand["i"])
             elif plain_named and rng.random() < 0.12:
                 nm = ("dot", rng.choice(plain_named)["i"], j)
-            shorts = [b for b in plain_named if b["access"] != "none" and ("param", b["i"]) not in used_names]
+            shorts = [b for b in plain_named if b["access"] not in ("none", "opaque") and ("param", b["i"]) not in used_names]
             if r >= 0.85 and shorts and rng.random() < 0.6:
                 # `?p` / `%p`: the parameter itself, no expression
                 b = rng.choice(shorts)
@@ -457,6 +565,13 @@ def build_generated(n, seed):
     for gk in GROUP_KINDS:
         forced.append({"groups": [gk, "val"], "kind": "sync"})
         forced.append({"groups": ["bool", gk], "kind": "async"})
+    # every TYPES_FOR_VALUE entry in a qualified spelling and a second one cycling through the forms; bare ones as controls
+    vts = sorted(VTYPES)
+    for k, tn in enumerate(vts):
+        other = vts[(k + 7) % len(vts)]
+        forced.append({"groups": ["vq:%s:q" % tn, "val", "vq:%s:%s" % (other, VFORMS[2 + k % 6])], "kind": ["sync", "async", "boxed"][k % 3]})
+    for k in range(0, len(vts), 3):
+        forced.append({"groups": ["vq:%s:bare" % vts[k], "vq:%s:rbare" % vts[(k + 1) % len(vts)], "vq:%s:lq" % vts[(k + 2) % len(vts)]], "kind": "sync"})
     for i in range(n):
         force = forced[i] if i < len(forced) else None
         fns.append(Gen(rng, i, force).func())
@@ -703,6 +818,7 @@ HEADER = """//! GENERATED by driver/props/c17_corpus.py (deterministic) — twin
 #![allow(unused, unreachable_code, clippy::all)]
 use super::support::*;
 use std::future::Future;
+use std::num::*;
 use std::pin::Pin;
 
 pub const STRS: [&str; 4] = ["s0", "s1", "s2", "s3"];
@@ -774,10 +890,21 @@ def c_stmt(s):
     return "(SIf %s %s %s)" % (c_cond(s[1]), c_stmt(s[2]), c_stmt(s[3]))
 
 
+MODEL_TY = {"rec": "TRec", "u32": "TU32", "bool": "TBool", "str": "TStr", "vnum": "TU32", "vbool": "TBool", "vstr": "TStr"}
+
+
+def c_spell(sp):
+    if sp[0] == "other":
+        return "(TyOther %d)" % sp[1]
+    _, refs, lead, segs, gens = sp
+    return "(TyPath %d %s [%s] %s)" % (refs, "true" if lead else "false", "; ".join('"%s"%%string' % x for x in segs), "true" if gens else "false")
+
+
 def c_param(b):
-    ty = {"rec": "TRec", "u32": "TU32", "bool": "TBool", "str": "TStr"}[b["ty"]]
-    return "(mkParam %s %s %s %s %s)" % (ty, "true" if b["owned"] else "false", "RValue" if b["rtype"] == "value" else "RDebug",
-                                         "true" if b["named"] else "false", b["pat"])
+    """RecordType is NOT taken from the generator: the model computes it from the type as written (last-segment rule) and the
+    TYPES_FOR_VALUE table the translator read off expand.rs"""
+    return "(mkParam %s %s (rtype_of Gen_attr.gen_types_for_value %s %s) %s %s)" % (
+        MODEL_TY[b["ty"]], "true" if b["owned"] else "false", c_spell(b["spell"]), b["pat"], "true" if b["named"] else "false", b["pat"])
 
 
 def c_func(fn):
@@ -832,6 +959,7 @@ def template_key(fn):
 
 def pattern_key(fn):
     return ",".join(sorted(set(b["pat"] + ("" if b["ty"] == "rec" else ":" + b["ty"]) + ("" if b["owned"] or b["ty"] != "rec" else ":ref")
+                               + (":%s:%s" % b["vq"] if b.get("vq") else "")
                                for b in fn["binds"])))
 
 
